@@ -471,3 +471,51 @@ Proof.
     split; [exact Hold|]. split; [exact A|]. split; [exact B|]. split; [exact C|].
     intros P [Hk|Hk]; discriminate Hk.
 Qed.
+
+(* ---- a replayed value is a set message of the quantifier, and the step is defined ---- *)
+Lemma replay_conf : forall k e v, undo_kind k -> stable e k v ->
+  conf e k [event_arg k v] /\ in_spec k [event_arg k v] = true.
+Proof.
+  intros k e v Hk (Hv & _ & Hc).
+  destruct Hk as [[Hk|[Hk|[Hk|[Hk|[Hk|[Hk|Hk]]]]]]|Hk]; subst k;
+    (split; [cbn [conf event_arg]; constructor; assumption|reflexivity]).
+Qed.
+
+Lemma step_replay_total : forall k e loc m st v,
+  undo_kind k -> env_ok e k -> stored_stable e k st -> stable e k v ->
+  match k with
+  | KAI | KAF | KAO => (slot k e m < length st)%nat
+  | KCO => True
+  | _ => length st = 1%nat
+  end ->
+  exists st' o, step k e loc m st [event_arg k v] = Some (st', o).
+Proof.
+  intros k e loc m st v Hk Henv Hst Hv Hlen.
+  assert (SC : forall cb, elem_cb k = Some cb -> Forall (stable e k) st -> length st = 1%nat ->
+               exists st' o, scalar st (fun x => cb e loc x [event_arg k v]) = Some (st', o)).
+  { intros cb Hcb Hf Hl. destruct st as [|x [|y r]]; try discriminate.
+    inversion Hf as [|? ? (Vx & _ & _) _]; subst.
+    destruct (elem_replay k e cb loc x v Hcb Henv Vx Hv) as (_ & _ & o & R).
+    unfold scalar. rewrite R. eexists _, _. reflexivity. }
+  assert (AR : forall cb, elem_cb k = Some cb -> Forall (stable e k) st ->
+               (Z.to_nat (boils_idx e m) < length st)%nat ->
+               exists st' o, at_idx st (boils_idx e m) (fun x => cb e loc x [event_arg k v]) = Some (st', o)).
+  { intros cb Hcb Hf Hl. unfold at_idx.
+    destruct (nth_error st (Z.to_nat (boils_idx e m))) as [x|] eqn:En;
+      [|apply nth_error_None in En; lia].
+    destruct (Forall_nth_error _ _ _ _ _ Hf En) as (Vx & _ & _).
+    destruct (elem_replay k e cb loc x v Hcb Henv Vx Hv) as (_ & _ & o & R).
+    rewrite R. eexists _, _. reflexivity. }
+  destruct Hk as [[Hk|[Hk|[Hk|[Hk|[Hk|[Hk|Hk]]]]]]|Hk]; subst k; cbn [step].
+  - exact (SC rParamCb eq_refl Hst Hlen).
+  - exact (SC rParamICb eq_refl Hst Hlen).
+  - exact (SC rParamFCb eq_refl Hst Hlen).
+  - exact (SC rOptionCb eq_refl Hst Hlen).
+  - exact (AR rArrayICb_elem eq_refl Hst Hlen).
+  - exact (AR rParamFCb eq_refl Hst Hlen).
+  - exact (AR rOptionCb eq_refl Hst Hlen).
+  - destruct Hst as (x & n & Est & (Vx & Rx & Cx)). subst st.
+    rewrite counted_as_option.
+    destruct (elem_replay KO e rOptionCb loc x v eq_refl I Vx Hv) as (_ & _ & o & R).
+    cbn [event_arg] in *. rewrite R. eexists _, _. reflexivity.
+Qed.
